@@ -914,6 +914,10 @@ func (p *queryPlan) projectAndGroupBy() error {
 			Msgs: []string{"Starting group reduce and projection"},
 		}
 	})
+	if p.tbl.NumRows() == 0 {
+		// Nothing to group or to aggregate.
+		return nil
+	}
 	// The table needs to be group reduced.
 	// Project only binding involved in the group operation.
 	tmpBindings := []string{}
